@@ -12,6 +12,7 @@ import P0f.Model.DbParse
 import P0f.Model.Api
 import P0f.Model.Effects
 import P0f.Model.ImpExplain
+import P0f.Model.ImpExtract
 /-
   Line-protocol driver: one tab-separated op per input line, one answer line per op.
   Every op is answered by the *model* definitions that the theorems in `P0f/Props` are about.
@@ -224,7 +225,15 @@ def impExplain (f : Array String) : String :=
           let ab := zeroChecksums over (obytes.take dlen)
           match firstDiff mb ab 0 with
           | some i => s!"DIFF@{i}(model={mb.getD i 999},actual={ab.getD i 999},tcpoff={if over == 4 then (obytes.getD 0 0 % 16) * 4 else 40})"
-          | none => if choicesOk s base uptime ch then "ok" else "RANGE"
+          | none =>
+            if !choicesOk s base uptime ch then "RANGE"
+            else
+              -- the field-level extraction the C05 theorem is about must agree with decoding the bytes
+              let e := extractOut mo
+              if e.ipVer == k.ipVer && e.olen == k.olen && e.ttl == k.ttl && e.win == k.win && e.layout == k.layout
+                  && e.mss == k.mss && e.wscale == k.wscale && e.ts == k.ts && e.eolPad == k.eolPad && e.hdrLen == k.hdrLen
+                  && e.hasPayload == k.hasPayload && e.quirks.toMask == k.quirks.toMask then "ok"
+              else s!"EXTRACT(model={e.quirks.toMask},{natList e.layout},{e.mss},{e.wscale},{e.hdrLen};bytes={k.quirks.toMask},{natList k.layout},{k.mss},{k.wscale},{k.hdrLen})"
       s!"{verdict} | explain={expl}"
 
 /-- what the model does with inputs on which the real code raised: does the model raise too -/
